@@ -55,9 +55,10 @@ Finish(ok, fails, h) ==
     /\ verdict' = IF ok THEN "acc" ELSE "rej"
     /\ why' = IF Cardinality(fails) <= 1 THEN fails ELSE {"multi"}
     /\ pend' = {}
-    /\ IF CacheSound
-       THEN cache' = (IF ok THEN cache \cup pend ELSE cache) /\ taint' = taint
-       ELSE cache' = cache /\ taint' = (IF ~ok \/ Deviated' THEN taint \cup pend ELSE taint)
+    /\ cache' = cache
+    \* ghost: entries stored by an attempt that was rejected (or accepted only through a listed
+    \* deviation) say "validated" about certificates whose chain never was
+    /\ taint' = (IF ~ok \/ Deviated' THEN taint \cup pend ELSE taint)
     /\ hist' = [h EXCEPT ![Len(h)].acc = ok]
     /\ UNCHANGED <<start, warm, jumps>>
 
@@ -84,8 +85,10 @@ Verify(nextMode(_)) ==
     ELSE \E p \in Answers :
            IF StdOk(cur, p)
            THEN /\ cur' = p /\ mode' = nextMode(p) /\ want' = ""
-                /\ pend' = pend \cup {cur.id}
-                /\ cache' = IF CacheSound THEN cache ELSE cache \cup {cur.id}
+                \* store_validated_certificate(cur.hash, cur.previous_hash); proposed fix: only
+                \* when the served previous certificate hashes to its id
+                /\ pend' = IF CacheSound /\ ~p.hashOk THEN pend ELSE pend \cup {cur.id}
+                /\ cache' = IF CacheSound /\ ~p.hashOk THEN cache ELSE cache \cup {cur.id}
                 /\ fF' = (fF \/ p.epoch > cur.epoch)
                 /\ hist' = Note(p)
                 /\ UNCHANGED <<start, taint, att, verdict, why, fForged, fTaint, fHit, warm, jumps>>
